@@ -956,10 +956,13 @@ def validate(ctx, cases, label, report=True, beside=None):
             v = run_trace(ctx, [c for c, _ in items], fsets, label + "_classify%d" % sizes[0])
             rest = []
             for c, rj in items:
-                ok = [fsets[i] for i in range(len(fsets)) if v.get((c["id"], i + 1), ("x",))[0] == "accept"]
+                ok = [(fsets[i], v[(c["id"], i + 1)][1]) for i in range(len(fsets))
+                      if v.get((c["id"], i + 1), ("x",))[0] == "accept"]
                 # smallest set; among equally small ones prefer deviations that are still present in the code under
-                # test (known_findings.jsonl, status known) to repaired ones whose model happens to fit as well
-                ok.sort(key=lambda fs: (len(fs), sum(1 for f in fs if f not in live)))
+                # test (known_findings.jsonl, status known) to repaired ones whose model happens to fit as well, then
+                # the explanation that validates most of the recording (no cut, else the latest cut)
+                ok.sort(key=lambda x: (len(x[0]), sum(1 for f in x[0] if f not in live), x[1] != 0, -x[1]))
+                ok = [x[0] for x in ok]
                 if ok:
                     rejections.append({"case": c, "flags": ok[0], "rej": rj})
                 else:
@@ -981,6 +984,9 @@ def report_rejection(ctx, rj):
     c = rj["case"]
     flags = rj["flags"] or ["unexplained"]
     step = rj["rej"]["step"]
+    if os.environ.get("VERIF_DUMP_REJ"):       # development aid: every rejection (also the known ones) with its recording
+        with open(os.environ["VERIF_DUMP_REJ"], "a") as f:
+            f.write(json.dumps({"id": c["id"], "flags": rj["flags"], "rej": rj["rej"], "acts": [s["act"] for s in c["steps"]]}) + "\n")
     for fl in flags:
         sig = {"clause": fl, "subsystem": c["sub"]}
         if c.get("masked"):                  # the masked space must be clean: never matches a known entry
